@@ -19,6 +19,7 @@ def b_len(it, v):
     if isinstance(v, SList):
         return SInt(v.n)
     if isinstance(v, SStr):
+        it.fact(slen(v.z) >= 0)
         return SInt(slen(v.z))
     if isinstance(v, SSet):
         if v.card is None:
@@ -888,6 +889,60 @@ _DT = _dt_ctor('datetime')
 _D = _dt_ctor('date')
 
 
+from .sym import StrS as _StrS
+path_sepfree = z3.Function('path_sepfree', _StrS, z3.BoolSort())
+path_under = z3.Function('path_under', _StrS, _StrS, z3.BoolSort())
+
+
+def ospath_attr(full):
+    """
+    A-path: os.path.split/basename give a separator-free tail; join(d, b) with
+    separator-free b lies under d; everything else is an unconstrained string.
+    """
+    name = full.split('.')[-1]
+    if full == 'os.name':
+        return 'posix'
+    if full == 'os.sep':
+        return '/'
+
+    def sz(it, v):
+        return ops.strz(it, v)
+
+    if name == 'split':
+        def split(it, p):
+            head, tail = it.fresh_str('head'), it.fresh_str('tail')
+            it.fact(path_sepfree(tail.z))
+            return (head, tail)
+        return Builtin(split)
+    if name == 'basename':
+        def basename(it, p):
+            t = it.fresh_str('basename')
+            it.fact(path_sepfree(t.z))
+            return t
+        return Builtin(basename)
+    if name == 'join':
+        def join(it, d, *parts):
+            r = it.fresh_str('joined')
+            if len(parts) == 1 and ops.is_strlike(parts[0]) and ops.is_strlike(d):
+                b = parts[0]
+                if isinstance(b, str):
+                    if '/' not in b and '\\' not in b and b not in ('..', '.', ''):
+                        it.fact(path_under(r.z, sz(it, d)))
+                else:
+                    it.fact(z3.Implies(path_sepfree(sz(it, b)), path_under(r.z, sz(it, d))))
+            return r
+        return Builtin(join)
+    if name in ('exists', 'isabs', 'isdir', 'isfile'):
+        return Builtin(lambda it, p: SBool(z3.Bool(it.path.fresh_name('os.path.' + name))))
+    if name in ('normpath', 'abspath', 'dirname', 'expanduser', 'realpath'):
+        return Builtin(lambda it, p: it.fresh_str(name))
+    if name == 'splitext':
+        return Builtin(lambda it, p: (it.fresh_str('root'), it.fresh_str('ext')))
+    if name == 'getcwd':
+        return Builtin(lambda it: it.fresh_str('cwd'))
+    raise Unsupported('module attribute %s' % full)
+
+
 _DEFAULT_LOADER = SObj('unittest.defaultTestLoader', {'__open__': False})
 _TESTLOADER_CLASS = SObj('unittest.TestLoader', {'__init__': Builtin(lambda it, *a, **k: None),
                                                  '__open__': False})
@@ -910,6 +965,8 @@ def module_attr(m, name):
         return Builtin(sys_exit)
     if full in ('os.path', 'os.environ'):
         return ModuleRef(full)
+    if full.startswith('os.path.') or full in ('os.getcwd', 'os.name', 'os.sep'):
+        return ospath_attr(full)
     if full == 'unittest.defaultTestLoader':
         return _DEFAULT_LOADER
     if full == 'unittest.TestLoader':
